@@ -143,8 +143,9 @@ def parse_consts(paths):
             src = open(p, encoding="utf-8").read()
         except OSError:
             continue
-        for m in re.finditer(r"\bconst\s+([A-Z][A-Z0-9_]*)\s*:\s*(\w+)\s*=\s*([0-9][0-9_]*)\s*;", src):
-            consts.setdefault(m.group(1), (int(m.group(3).replace("_", "")), m.group(2)))
+        for m in re.finditer(r"\bconst\s+([A-Z][A-Z0-9_]*)\s*:\s*(\w+)\s*=\s*(0x[0-9a-fA-F_]+|[0-9][0-9_]*)\s*;", src):
+            lit = m.group(3).replace("_", "")
+            consts.setdefault(m.group(1), (int(lit, 16) if lit.startswith("0x") else int(lit), m.group(2)))
     return consts
 
 
@@ -609,7 +610,13 @@ class Executor:
                 ovf = z3.Not(z3.BVSubNoUnderflow(a, b, signed)) if not signed else z3.Or(z3.Not(z3.BVSubNoOverflow(a, b)), z3.Not(z3.BVSubNoUnderflow(a, b, True)))
             else:
                 val = a * b
-                ovf = z3.Not(z3.BVMulNoOverflow(a, b, signed))
+                # written out with a double-width product: z3's bvumul_noovfl is not SMT-LIB (cvc5 1.0 rejects it)
+                if signed:
+                    wide = z3.SignExt(w, a) * z3.SignExt(w, b)
+                    ovf = wide != z3.SignExt(w, z3.Extract(w - 1, 0, wide))
+                else:
+                    wide = z3.ZeroExt(w, a) * z3.ZeroExt(w, b)
+                    ovf = z3.Extract(2 * w - 1, w, wide) != 0
             t = Agg("ovf")
             t[0] = val
             t[1] = ovf
